@@ -142,6 +142,9 @@ type uploadSpec struct {
 	KnownTotal  bool // chunks declare the total ("bytes a-b/N"), else "bytes a-b/*" finished by "bytes */N"
 	ChunkMax    int  // upper bound of a chunk's length (>=1)
 	Hostile     bool // interleave status queries and overlapping re-sends
+	// Between, if set, runs after the session was initiated and before the first chunk (C04: the object changes
+	// while the session is open; the conditions must be judged against the state at completion).
+	Between func() string `json:"-"`
 }
 
 var wellFormedRe = regexp.MustCompile(`^[A-Za-z0-9._/-]+$`)
@@ -213,6 +216,11 @@ func (e *exec) sendUpload(u *uploadSpec, r *common.Rand) (final *drive.Resp, sub
 	}
 	if id == "" {
 		return init, sub, "resumable initiation answered 2xx without an upload_id in Location"
+	}
+	if u.Between != nil {
+		if msg := u.Between(); msg != "" {
+			return init, sub, "while the session was open: " + msg
+		}
 	}
 	target := drive.SessionTarget(u.Bucket, id)
 	method := "PUT"
@@ -375,9 +383,14 @@ func failureOK(v model.Verdict, status int, absentNotFoundOK bool, extra ...int)
 
 // upload executes one upload and checks it. Returns "" or what refutes the property.
 func (e *exec) upload(u *uploadSpec, r *common.Rand) string {
+	md5bad := u.MD5 == "wrong" || u.MD5 == "malformed"
+	e.touch(u.Bucket, u.Name)
+	rsp, sub, complaint := e.sendUpload(u, r)
+	e.touch(u.Bucket, u.Name)
+	// The expectation is computed against the model as it is when the upload completes (sendUpload does not touch the
+	// model; only a Between hook does).
 	cur := e.m.Get(u.Bucket, u.Name)
 	v := model.Eval(cur, u.Conds)
-	md5bad := u.MD5 == "wrong" || u.MD5 == "malformed"
 	expect := "200 + resource"
 	switch {
 	case v == model.Bad:
@@ -389,8 +402,6 @@ func (e *exec) upload(u *uploadSpec, r *common.Rand) string {
 	case md5bad:
 		expect = "4xx (declared MD5 does not match), previous object intact"
 	}
-	e.touch(u.Bucket, u.Name)
-	rsp, sub, complaint := e.sendUpload(u, r)
 	e.recResp(u.describe(), expect, rsp, sub)
 	e.stats["uploads_"+u.Proto]++
 	if rsp.Err != "" {
